@@ -123,6 +123,14 @@ def handle (cmd : String) (j : J) : Except String J :=
         | some F => residual n D F N
         | none => 1) else 0
       pure (J.obj [("P", matJr P), ("q", J.num q), ("j", J.num jj), ("solve_residual", J.ofRat res)])
+  | "eigen" => do
+    -- EigenExponentiator.__call__ given the stored evT, evI and e = exp(t*roots): inner(evT*e, evI), then maximum(.,0)
+    let n ← (← j.get "n").toNat
+    let evT ← jMat (← j.get "evT")
+    let evI ← jMat (← j.get "evI")
+    let e ← jVec (← j.get "e")
+    let raw := eigenCall n evT evI e
+    pure (J.obj [("P", matJ (clip0 n raw)), ("raw", matJ raw)])
   | "solve" => do
     let n ← (← j.get "n").toNat
     let D ← jMat (← j.get "D")
